@@ -276,6 +276,23 @@ pub fn run(ctx: &Ctx) -> Outcome {
     if out.failure.is_some() {
         return out;
     }
+    // both extreme years x every month byte x every day byte x times around the excluded maximum (validation order must not matter)
+    let rs = par_shards(2, |shard, st| {
+        let y = if shard == 0 { i32::MIN } else { i32::MAX };
+        for mo in 0..=255u8 {
+            for d in [0u8, 1, 28, 29, 30, 31, 32, 255] {
+                for (h, mi, s) in [(23u8, 59u8, 60u8), (0, 0, 60), (23, 59, 61), (24, 59, 60), (23, 60, 60)] {
+                    let f = Fields { y, mo, d, h, mi, s, ns: 0 };
+                    check_enum("fields", &f, st, |c, st| check_fields(c, st, true))?;
+                }
+            }
+        }
+        Ok(())
+    });
+    out.absorb_all(rs);
+    if out.failure.is_some() {
+        return out;
+    }
     // both extreme years completely (every day), incl. the excluded maximum
     let rs = par_shards(2, |shard, st| {
         let y = if shard == 0 { i32::MIN } else { i32::MAX };
